@@ -57,6 +57,13 @@ def run(tier, seed):
         raise vlib.ToolError("disagreements counted but none recorded")
     chk.sample(dict(sweeps={k: v["evaluations"] for k, v in list(summ.items())[:4]}))
     chk.sample(dict(event=evs[len(evs) // 2]))
+    # 3b. "no rare coefficient value can make key generation ... deviate from the standard": keys whose t leaves [0, q) before
+    #     the final reduction (or sits on a rounding boundary at the first/last coefficient), found by search, recomputed by TLC
+    from concurrent.futures import ThreadPoolExecutor
+    sw = os.path.join(chk.workdir, "sw")
+    with ThreadPoolExecutor(max_workers=3) as ex:
+        list(ex.map(lambda s: vlib.drive(bindir, "sweeps", sets=s, seed=seed + 4, nkeys=0, nedge=40000 if tier == "quick" else 800000, nedgefull=1, nsamplers=0, out=sw, timeout=7200), (44, 65, 87)))
+    common.validate_f(chk, {s: os.path.join(sw, "sweeps_%d.ndjson" % s) for s in (44, 65, 87)}, nproc=9, chunks_per_set=3, key_of=lambda m: "rare-coefficient-key:" + m["ev"])
     # 4. the implementation's bit-trick kernels as TLA+ transcriptions: equal to the definitions (TLC), 64-bit contracts (Apalache)
     common.mc_variants(chk, "MC_Kernels", (44, 65), tier=tier, workers=12)
     if tier == "thorough":
